@@ -251,7 +251,7 @@ Qed.
 Definition pex_ext : Parser.ext :=
   {| Parser.x_alpha := fun _ => false; Parser.x_alnum := fun _ => false; Parser.x_ws := fun _ => false;
      Parser.x_query := fun _ _ => Some (Parser.QOk 1 (Some 1)); Parser.x_merged := fun _ => Some true;
-     Parser.x_regex := fun _ => Some true |}.
+     Parser.x_regex := fun _ => Some true; Parser.x_print := [] |}.
 Definition pex_text : str := [40; 97; 41; 32; 64; 120; 32; 123; 10; 32; 32; 105; 102; 32; 115; 111; 109; 101; 32; 64; 120; 32; 123; 10; 32; 32; 32; 32; 102; 111; 114; 32; 121; 32; 105; 110; 32; 91; 49; 93; 32; 123; 10; 32; 32; 32; 32; 32; 32; 115; 99; 97; 110; 32; 34; 115; 34; 32; 123; 10; 32; 32; 32; 32; 32; 32; 32; 32; 34; 97; 34; 32; 123; 32; 112; 114; 105; 110; 116; 32; 121; 32; 125; 10; 32; 32; 32; 32; 32; 32; 125; 10; 32; 32; 32; 32; 125; 10; 32; 32; 125; 32; 101; 108; 105; 102; 32; 110; 111; 110; 101; 32; 64; 120; 32; 123; 10; 32; 32; 32; 32; 112; 114; 105; 110; 116; 32; 34; 101; 34; 10; 32; 32; 125; 32; 101; 108; 115; 101; 32; 123; 10; 32; 32; 32; 32; 110; 111; 100; 101; 32; 110; 10; 32; 32; 125; 10; 32; 32; 112; 114; 105; 110; 116; 32; 49; 10; 125; 10; 40; 98; 41; 32; 64; 95; 122; 32; 123; 10; 32; 32; 115; 99; 97; 110; 32; 34; 116; 34; 32; 123; 32; 34; 98; 34; 32; 123; 32; 105; 102; 32; 35; 116; 114; 117; 101; 32; 123; 32; 108; 101; 116; 32; 119; 32; 61; 32; 49; 32; 125; 32; 125; 32; 125; 10; 125; 10].
 Example parsed_locs_unique_nonvacuous :
   exists fl, Parser.parse pex_ext (Parser.fuel_of pex_text) pex_text = Parser.POk fl [[97]; [98]] /\
@@ -306,7 +306,7 @@ Qed.
    checker rewrites capture resolutions only (check_resolves, Props/C06.v), so statement locations and printed identifiers
    are those of the parsed file (Proofs/LoadedFile.v): the facts above hold of the loaded file, and the end-to-end theorems
    hold for every text the model's loader accepts - no hypothesis about the file is left. *)
-From TSG Require Model.Loader Proofs.LoadedFile.
+From TSG Require Model.Loader Proofs.LoadedFile Proofs.ParseNodeText.
 
 Theorem loaded_locs_unique : forall X q fuel text fl pats,
   Loader.load X q fuel text = Loader.LdOk fl pats -> locs_unique fl = true.
@@ -380,6 +380,35 @@ Proof.
   destruct (Loader.load pex_ext pex_q (Parser.fuel_of pex_text) pex_text) as [fl pats| | | |] eqn:E; try (vm_compute in E; discriminate).
   exists fl. assert (H : Loader.LdOk fl pats = Loader.load pex_ext pex_q (Parser.fuel_of pex_text) pex_text) by (symmetry; exact E).
   vm_compute in H. injection H as -> ->. repeat split.
+Qed.
+
+(* the text field of `node` statements (the text the interpreters write into the debug attribute "variable name", C15): in
+   the file the loader returns, EVERY `node` statement, at any depth, carries the Display text of its variable - the parser
+   model fills the field with display_variable (compared with `format!("{}", node)` of the real AST by stream C07), and the
+   checker rewrites capture resolutions only, which Display does not read.  The <str as Debug> table is the loader's external
+   x_print (only string constants inside the scope expression of a scoped variable read it). *)
+(* already for the parser alone, and for EVERY accepted text (not only the renderings of Props/C07.v parse_render_file) *)
+Theorem parsed_node_text : forall X fuel text f pats,
+  Parser.parse X fuel text = Parser.POk f pats ->
+  forall v t l, In (SNode v t l) (file_stmts f) -> t = display_variable (dpenv_of (Parser.x_print X)) v.
+Proof.
+  intros X fuel text f pats H v t l Hin. pose proof (ParseNodeText.parsed_node_text_lemma _ _ _ _ _ H) as Hall.
+  rewrite forallb_forall in Hall. apply (ParseNodeText.node_textb_spec _ v t l). exact (Hall _ Hin).
+Qed.
+
+Theorem loaded_node_text : forall X q fuel text fl pats,
+  Loader.load X q fuel text = Loader.LdOk fl pats ->
+  forall v t l, In (SNode v t l) (file_stmts fl) -> t = display_variable (dpenv_of (Parser.x_print X)) v.
+Proof. exact LoadedFile.loaded_node_text_lemma. Qed.
+
+(* non-vacuity: the `node n` at (10, 4) of the loaded example file carries the text "n" *)
+Example loaded_node_text_nonvacuous :
+  exists fl, Loader.load pex_ext pex_q (Parser.fuel_of pex_text) pex_text = Loader.LdOk fl [[97]; [98]] /\
+    In (SNode (VarU [110] (10, 9)) [110] (10, 4)) (file_stmts fl).
+Proof.
+  destruct (Loader.load pex_ext pex_q (Parser.fuel_of pex_text) pex_text) as [fl pats| | | |] eqn:E; try (vm_compute in E; discriminate).
+  exists fl. assert (H : Loader.LdOk fl pats = Loader.load pex_ext pex_q (Parser.fuel_of pex_text) pex_text) by (symmetry; exact E).
+  vm_compute in H. injection H as -> ->. split; [reflexivity|]. vm_compute. tauto.
 Qed.
 
 
